@@ -20,7 +20,9 @@ def pad(n):
 class Case:
     """one random world on two hosts (h1 = the acting daemon's host, h2 = remote)"""
 
-    def __init__(self, env, rng, big_space=True):
+    def __init__(self, env, rng, big_space=True, rich=False):
+        """rich: a healthy, well-replicated archive (4-5 mostly-archive nodes, most copies healthy and on disk, a few
+        released) so that deletions, transfers and rule processing actually proceed"""
         self.env = env
         self.rng = rng
         self.w = worldmod.World(env)
@@ -31,13 +33,14 @@ class Case:
             m.delete().execute()
         import shutil
         shutil.rmtree(os.path.join(env.tmp, "roots"), ignore_errors=True)
-        ng = rng.randint(2, 4)
+        ng = rng.randint(4, 5) if rich else rng.randint(2, 4)
         self.groups = [self.w.group(f"g{i + 1}") for i in range(ng)]
         self.nodes = []
         for i, g in enumerate(self.groups):          # one node per group (Default group I/O)
             host = "h1" if (i < 2 or rng.random() < 0.6) else "h2"
             routed = rng.random() < 0.7
-            n = self.w.node(f"n{i + 1}", g, host=host, stype=rng.choice("AAATF"), active=rng.random() < 0.9,
+            n = self.w.node(f"n{i + 1}", g, host=host, stype=rng.choice("AAAAAF" if rich else "AAATF"),
+                            active=rng.random() < (0.97 if rich else 0.9),
                             address="addr" if routed else None, username="user" if routed else None,
                             avail_kib=None, min_kib=0)
             self.nodes.append(n)
@@ -50,7 +53,11 @@ class Case:
         for f in self.files:
             for n in self.nodes:
                 r = rng.random()
-                if r < 0.55:
+                if rich and r < 0.8:
+                    self.w.copy(f, n, has=rng.choice("YYYYYYYM"), wants=rng.choice("YYYNNM"), on_disk=self.w.contents[f.id], ready=True)
+                elif rich:
+                    pass
+                elif r < 0.55:
                     has = rng.choice("YYYYMXN")
                     wants = rng.choice("YYMNN")
                     kind = rng.random()
